@@ -3,6 +3,7 @@ import Mimic.Reply
 import MimicProofs.Reply
 import MimicProofs.Wire
 import MimicProofs.PacketsCode
+import Mimic.Extracted.Handlers
 /-!
 # C03 — Every command gets exactly one complete, well-formed response (lockstep)
 
@@ -444,5 +445,29 @@ theorem code_ok_err_roundtrip (caps st a l w fl code : Nat) (eof : Bool) (msg : 
     exact ok_roundtrip _ ⟨eof, a, l, st ||| fl, w⟩ h1 h2 h3 h4
   · rw [MimicProofs.PacketsCode.make_error_eq caps msg code (MimicProofs.PacketsCode.sqlstate_five code), h41]
     exact err_roundtrip ⟨code, get_sqlstate code, msg⟩ h5 (MimicProofs.PacketsCode.sqlstate_five code)
+
+/-! ### the handlers have the shape the scripts assume (extracted from `connection.py` on every run) -/
+
+/-- what every command handler awaits, in execution order: stream writes with the kind of packet and whether they
+    drain at once or are buffered, explicit drains, application / session calls, loops and branches.  `scriptOf` was
+    written against exactly these skeletons; a handler that writes in a different order, drains differently or gains
+    / loses an await no longer matches. -/
+theorem handler_skeletons : Mimic.Extracted.Handlers.skeletons = [
+      ("handle_ping", "W(ok,drain)"),
+      ("handle_init_db", "CALL(use) W(ok,drain)"),
+      ("handle_field_list", "CALL(query) LOOP(aiterate(result.rows))[W(coldef,buffered)] W(term,drain)"),
+      ("handle_query", "CALL(query) IF(not result_set)[W(ok,drain) RETURN]ELSE[] LOOP(self.text_resultset(result_set))[W(packet,buffered)] D"),
+      ("handle_stmt_prepare", "LOOP(self.com_stmt_prepare_response(stmt))[W(packet,buffered)] D"),
+      ("handle_stmt_send_long_data", "IF(stmt is None)[RETURN]ELSE[]"),
+      ("handle_stmt_execute", "CALL(query) IF(not result_set)[W(ok,drain) RETURN]ELSE[] W(colcount,drain) LOOP(result_set.columns)[W(coldef,drain)] DEF(gen_rows)[LOOP(cooperative_iterate(aiterate(result_set.rows)))[YIELD(row)]] IF(com_stmt_execute.use_cursor)[W(term,drain)]ELSE[IF(not self.deprecate_eof())[W(eof,drain)]ELSE[] LOOP(rows)[W(row,drain)] W(term,drain)]"),
+      ("handle_stmt_fetch", "IF(com_stmt_fetch.num_rows > 0)[LOOP(cooperative_iterate(stmt.cursor))[W(packet,buffered)]]ELSE[] D W(term,drain)"),
+      ("handle_stmt_reset", "CALL(reset) W(ok,drain)"),
+      ("handle_stmt_close", ""),
+      ("handle_reset_connection", "W(ok,drain)"),
+      ("handle_debug", "W(ok,drain)"),
+      ("handle_change_user", "TRY[CALL(_change_user)] EXCEPT(AuthenticationFailed)[RAISE()] EXCEPT(Exception)[IF(isinstance(e, MysqlError))[W(err,drain)]ELSE[W(err,drain)] RAISE(AuthenticationFailed())] CALL(reset)"),
+      ("text_resultset", "YIELD(colcount) LOOP(result_set.columns)[YIELD(coldef)] IF(not self.deprecate_eof())[YIELD(eof)]ELSE[] LOOP(cooperative_iterate(aiterate(result_set.rows)))[YIELD(row)] YIELD(term)"),
+      ("com_stmt_prepare_response", "YIELD(prepok) IF(statement.num_params)[LOOP(range(statement.num_params))[YIELD(coldef)] IF(not self.deprecate_eof())[YIELD(eof)]ELSE[]]ELSE[]")] := by
+  rfl
 
 end MimicProps.C03
